@@ -2,7 +2,8 @@
 
 Theorems: lean/Props/C14.lean about `Model.World` (colour context, strategy registry, caller-owned
 objects and frames, constructed documents; histories of any length); lean/Props/C14memo.lean about keyed
-stores (caches) in general and in the world (`Model.Memo`, `Model.WorldMemo`).
+stores (caches) in general and in the world (`Model.Memo`, `Model.WorldMemo`); lean/Props/C14files.lean about the files
+a figure document reads (`Model.WorldFiles`: histories with file-system events, stores of file contents).
 
 Tie to the code on every run:
   unit level         real `color_service.get_rtf_color_index` / `Utils._get_color_index` /
@@ -40,6 +41,16 @@ library handles them (subline_by with 2–3 page_by columns, two subline_by colu
 in non-frame order, a colour / font / size / multi-letter format per column, 10–14 column names); the order in which
 the page_by spanning rows and the subline values are written is read off every output and compared with the model
 (the user's lists).
+A FIGURE-FILES family per pool (`gen_figfs`): figure documents whose image files live in a directory tree of the history's
+own (three directories, each with its own `fig.png`, `plot.png`, …), named by relative and absolute paths in several
+spellings, one path in several documents, one `RTFFigure` object in two documents.  Their histories carry FILE-SYSTEM
+EVENTS between the operations: alternately (i) no file ever changes — the process changes its working directory and
+touches files — and (ii) files are rewritten in place / replaced atomically (same byte length, another length), replaced
+by the same-named file of another directory, renamed away, deleted and written again.  The reference of such a history is
+a fresh interpreter in the file system AS IT IS WHEN THE TARGET IS ENCODED (the history's events applied to a new tree,
+same working directory).  The images embedded by every encode are read off the outputs and compared with what the
+document's paths designate at that moment in the Lean model of the tree (`Model.World.traceF`, op `c14_files`), which also
+says for every history whether a store of image bytes keyed by the path (as spelled / resolved) would have shown in it.
 """
 from __future__ import annotations
 
@@ -81,7 +92,18 @@ RULE = ("pool per round: ≥ 12 document kinds (plain, two coloured palettes, mu
         "('bi', 'ibs', 'b^' …) per column, the wide frame with 2 page_by, a three-section document of these. "
         "Interpreters: histories alternate between two random PYTHONHASHSEEDs; every target's reference under "
         "PYTHONHASHSEED=0 (new interpreter) and two further random seeds (forked children of an interpreter started "
-        "with the seed): four interpreters per target that must produce one string")
+        "with the seed): four interpreters per target that must produce one string. "
+        "Per round also a FIGURE-FILES family (appended last, 14 histories per round; thorough 24): 10 figure documents "
+        "over a tree of 3 directories × 4 image names (PNG / JPEG, every file its own bytes), paths relative (str, Path, "
+        "./name) and absolute (str, Path, with '..', ../d<k>/name), 1-3 files per document, one path in several "
+        "documents, one file named twice, one RTFFigure object in two documents; histories of 1-4 prior operations "
+        "(encode / twice / construct of documents naming a file of the same name, other members, table and failing "
+        "documents, re-created equal-valued components, live documents re-encoded after the events) with file-system "
+        "events in between and always before the target — even-numbered histories: chdir (80 %) / touch only, NO file "
+        "changes (the class inside the quantifier); odd-numbered: write in place / atomic replace (same byte length or "
+        "not), the same-named file of another directory moved over it, rename away, delete (+ write), touch, chdir; the "
+        "target's files exist when it is encoded; reference = fresh interpreters that apply the same events to a new "
+        "tree before constructing the target")
 TRUSTED = [
     "Lean 4.33 kernel; axioms ⊆ {propext, Classical.choice, Quot.sound} (audited per theorem on every run)",
     "Lean compiler for the driver executable",
@@ -90,10 +112,15 @@ TRUSTED = [
     "the references under further hash seeds are forked children (one per target) of `python -m harness.props.c14_hist "
     "fresh_many`, an interpreter started with that seed that has imported rtflite and polars and done nothing else",
     "harness/props/c14_hist.py reads component values through pydantic's public fields / model_dump()",
+    "figure-files histories: os.chdir / open / os.replace / os.unlink / os.utime on a private temporary tree (the real tree "
+    "after every history is compared with the Lean model of it); the embedded images are read off the RTF with a regular "
+    "expression over the {\\pict …} groups",
 ]
 ASSUME = [
     "histories are sequential (concurrency is C15); the user does not assign to component attributes between operations",
-    "figure files on disk do not change during a history; polars, pydantic, Pillow are parameters",
+    "figure files and the working directory change only through the file-system events the history lists (between "
+    "operations, never during a call); the reference for a target is the fresh interpreter in the file system as it is "
+    "when the target is encoded; polars, pydantic, Pillow are parameters",
     "model domain: header text lists match the displayed column count; explicit widths either match the frame or are "
     "shorter (IndexError kind); group_by columns are not page_by/subline_by columns",
 ]
@@ -114,7 +141,13 @@ MANIFEST = dict(
          "String measurement is stateless in the code (no store; Op.measure is a no-op of the model); Props/C14memo "
          "proves that a keyed store in front of it keeps purity iff the key determines the stored value, and the "
          "measured family of the histories (texts at a wrap edge, nearby non-half-point sizes, direct "
-         "get_string_width calls) makes any other behaviour move a page break.",
+         "get_string_width calls) makes any other behaviour move a page break. Files: a figure document's outcome is a "
+         "function of the document AND of the file system at the call (working directory, file contents); 'fresh "
+         "interpreter' means one in the file system as it is when the target is encoded. Props/C14files proves purity in "
+         "that sense for the code (no store) and for every store whose key determines the content, and that a key made of "
+         "the path (as spelled: fails without any file changing; resolved: fails on a rewrite, proved harmless while no "
+         "file changes) does not; histories with rewritten files are outside the quantifier as written and are counted "
+         "separately in the evidence (input_distribution figfs_history:*, figure_files_failures).",
     technique="Lean 4 proof (invariant over reachable worlds, induction over histories) + history-based differential "
               "check against a fresh interpreter",
     design="7/C14",
@@ -146,8 +179,18 @@ def run_histories(tasks, hashseed, procs=None):
     return out
 
 
-def run_fresh(pool, target, hashseed=0, keep=False):
-    req = json.dumps(dict(pool=pool, target=target, keep=keep))
+def fs_events(hist):
+    """the file-system events of a history, in order (what the fresh reference has to apply before the target)"""
+    return [o[1] for o in hist["ops"] if o[0] == "fs"]
+
+
+def files_rewritten(hist):
+    """does a file-system event of the history change what a name holds?  (`Model.World.FsEv.changesFiles`)"""
+    return any(e["ev"] not in ("chdir", "touch") for e in fs_events(hist))
+
+
+def run_fresh(pool, target, hashseed=0, keep=False, events=None):
+    req = json.dumps(dict(pool=pool, target=target, keep=keep, events=events or []))
     p = subprocess.run([sys.executable, "-m", HIST_MOD, "fresh"], input=req.encode(), capture_output=True,
                        cwd=str(common.VERIF), env=_env(hashseed), timeout=600)
     if p.returncode != 0:
@@ -160,7 +203,8 @@ def run_fresh_many(pools, tasks, hashseed, procs=None):
     started with that seed imports rtflite, every target is built and encoded in its own forked child"""
     if not tasks:
         return []
-    req = json.dumps(dict(pools={str(k): v for k, v in pools.items()}, tasks=[[str(k), t] for k, t in tasks],
+    req = json.dumps(dict(pools={str(k): v for k, v in pools.items()},
+                          tasks=[[str(t[0]), t[1], json.loads(t[2]) if len(t) > 2 and t[2] else []] for t in tasks],
                           procs=procs or common.NCPU))
     p = subprocess.run([sys.executable, "-m", HIST_MOD, "fresh_many"], input=req.encode(), capture_output=True,
                        cwd=str(common.VERIF), env=_env(hashseed), timeout=3000)
@@ -632,6 +676,297 @@ def gen_hash_history(rng, pool, labels, j):
     return hist, ("hash-order", tuple(kinds), labels[target], reuse is not None)
 
 
+# ------------------------------------------------------------------ figure-files family (what an encode reads from disk)
+
+FIG_NAMES = ["fig.png", "plot.png", "km_curve.PNG", "logo.jpg"]
+FIG_NDIRS = 3
+REL_FORMS = ["str", "str", "Path", "dot"]
+ABS_FORMS = ["str", "str", "Path", "dotdot", "sibling"]
+
+
+def _jpeg(w, h, rgb):
+    """a JFIF stub with a baseline frame header of w×h (what `_get_jpeg_dimensions` reads) and a few payload bytes"""
+    app0 = b"\xff\xe0" + struct.pack(">H", 16) + b"JFIF\x00\x01\x01\x00\x00\x01\x00\x01\x00\x00"
+    sof = b"\xff\xc0" + struct.pack(">HBHHB", 17, 8, h, w, 3) + b"\x01\x11\x00\x02\x11\x01\x03\x11\x01"
+    return b"\xff\xd8" + app0 + sof + b"\xff\xda" + struct.pack(">H", 8) + bytes(rgb) + b"\x00\x3f\x00" + bytes(rgb) * 3 \
+        + b"\xff\xd9"
+
+
+class FsSim:
+    """the generator's own book-keeping of the tree (steers the choice of events and keeps the target readable; what
+    the files hold when is decided by the Lean model `Model.World.Fs` and checked against the real tree)"""
+
+    def __init__(self, spec):
+        self.cwd = spec["cwd"]
+        self.files = {(d, n): c for d, n, c in spec["files"]}
+
+    def key(self, ref):
+        return (ref["abs"], ref["n"]) if "abs" in ref else (self.cwd, ref["rel"])
+
+    def read(self, ref):
+        return self.files.get(self.key(ref))
+
+    def apply(self, ev):
+        k = ev["ev"]
+        if k == "chdir":
+            self.cwd = ev["d"]
+        elif k in ("write", "replace"):
+            self.files[(ev["d"], ev["n"])] = ev["c"]
+        elif k == "delete":
+            self.files.pop((ev["d"], ev["n"]), None)
+        elif k == "rename":
+            if (ev["d"], ev["n"]) in self.files:
+                self.files[(ev["d2"], ev["n2"])] = self.files.pop((ev["d"], ev["n"]))
+
+
+def gen_figfs(rng, pool, labels):
+    """Append to the pool a family of FIGURE documents whose image files live in a directory tree of the history's own
+    (`c14_hist.FsWorld`): three directories that each hold their own, different `fig.png`, `plot.png`, `km_curve.PNG`,
+    `logo.jpg`; documents name them by relative path (str, Path, `./`), by absolute path (str, Path, with `..`, as
+    `../d<k>/name`), one file or several, the same path in several documents, one `RTFFigure` object in two documents;
+    spare images per name (same pixel size and byte length with other bytes, other pixel size) for rewrites."""
+    comps, docs = pool["components"], pool["docs"]
+    by_cls = {}
+    for i, c in enumerate(comps):
+        by_cls.setdefault(c["cls"], []).append(i)
+    images, files, spare = [], [], {}
+
+    def image(name, w, h, rgb):
+        b = _jpeg(w, h, rgb) if name.lower().endswith((".jpg", ".jpeg")) else _png(w, h, rgb)
+        if b.hex() in images:
+            return None
+        images.append(b.hex())
+        return len(images) - 1
+
+    def colour():
+        return tuple(rng.randrange(256) for _ in range(3))
+
+    for n, name in enumerate(FIG_NAMES):
+        dims = rng.sample([(w, h) for w in range(2, 9) for h in range(2, 7)], FIG_NDIRS + 1)
+        for d in range(FIG_NDIRS):
+            c = None
+            while c is None:
+                c = image(name, *dims[d], colour())
+            files.append([d, n, c])
+            # spares: same pixel size and the same number of bytes with other bytes; another pixel size
+            same = []
+            for _ in range(12):
+                c2 = image(name, *dims[d], colour())
+                if c2 is not None and len(images[c2]) == len(images[c]):
+                    same.append(c2)
+                if len(same) == 2:
+                    break
+            spare[(d, n)] = dict(same=same)
+        other = []
+        while len(other) < 2:
+            c2 = image(name, *dims[FIG_NDIRS], colour())
+            if c2 is not None:
+                other.append(c2)
+        for d in range(FIG_NDIRS):
+            spare[(d, n)]["other"] = other
+    cwd0 = rng.randrange(FIG_NDIRS)
+    far = rng.choice([d for d in range(FIG_NDIRS) if d != cwd0])
+    info = dict(ndirs=FIG_NDIRS, cwd=cwd0, names=FIG_NAMES, images=images, files=files, members=[],
+                spare={f"{d},{n}": v for (d, n), v in spare.items()})
+
+    def add(cls, **kw):
+        comps.append(dict(cls=cls, kw=kw))
+        return len(comps) - 1
+
+    def size():
+        return rng.choice([2, 3, 3.5, 4.25]), rng.choice([1.5, 2, 2.75])
+
+    def figure(paths):
+        w, h = size()
+        kw = dict(paths=paths, fig_width=w, fig_height=h)
+        if len(paths) > 1 and rng.random() < 0.5:
+            kw["fig_width"] = [size()[0] for _ in paths]
+        if rng.random() < 0.3:
+            kw["fig_align"] = rng.choice(["left", "right"])
+        return add("RTFFigure", **kw)
+
+    def rel(n, form=None):
+        return dict(rel=n, form=form or rng.choice(REL_FORMS))
+
+    def ab(d, n, form=None):
+        return dict(abs=d, n=n, form=form or rng.choice(ABS_FORMS))
+
+    def shared():
+        """text components of the base pool, shared by identity with its table documents"""
+        o = {}
+        if rng.random() < 0.6 and by_cls.get("RTFTitle"):
+            o["title"] = rng.choice(by_cls["RTFTitle"])
+        if rng.random() < 0.3:
+            fns = [i for i in by_cls.get("RTFFootnote", []) if comps[i]["kw"].get("as_table") is False]
+            if fns:
+                o["footnote"] = rng.choice(fns)
+        if rng.random() < 0.3:
+            srcs = [i for i in by_cls.get("RTFSource", []) if not comps[i]["kw"].get("as_table")]
+            if srcs:
+                o["source"] = rng.choice(srcs)
+        if rng.random() < 0.2 and by_cls.get("RTFPageFooter"):
+            o["page_footer"] = rng.choice(by_cls["RTFPageFooter"])
+        return o
+
+    def member(label, fig, **others):
+        d = dict(kind="figure", secs=[], headers="default")
+        for k in ("page", "title", "subline", "footnote", "source", "page_header", "page_footer", "figure"):
+            d[k] = others.get(k)
+        d["figure"] = fig
+        docs.append(d)
+        labels.append(label)
+        info["members"].append(len(docs) - 1)
+
+    n0, n1, n2, n3 = 0, 1, 2, 3
+    f_rel = figure([rel(n0, "str")])
+    member("figfs-rel", f_rel, **shared())
+    member("figfs-rel-same-component-other-document", f_rel, **shared())
+    member("figfs-rel-other-spelling", figure([rel(n0, rng.choice(["Path", "dot"]))]), **shared())
+    member("figfs-abs-start-dir", figure([ab(cwd0, n0, "str")]), **shared())
+    member("figfs-abs-start-dir-other-spelling", figure([ab(cwd0, n0, rng.choice(["Path", "dotdot", "sibling"]))]), **shared())
+    member("figfs-abs-other-dir", figure([ab(far, n0)]), **shared())
+    member("figfs-several", figure(rng.sample([rel(n1), ab(rng.randrange(FIG_NDIRS), n0), rel(n0), ab(far, n1)], 3)), **shared())
+    member("figfs-rel-two", figure([rel(n2), rel(n1)]), **shared())
+    member("figfs-rel-jpeg", figure([rel(n3)]), **shared())
+    member("figfs-same-file-twice", figure([rel(n1), ab(cwd0, n1)]), **shared())
+    pool["figfs"] = info
+    return info
+
+
+def _refs_of(pool, did):
+    return pool["components"][pool["docs"][did]["figure"]]["kw"].get("paths") or []
+
+
+def _fmt_ev(pool, ev):
+    nm = pool["figfs"]["names"]
+    k = ev["ev"]
+    if k == "chdir":
+        return f"chdir d{ev['d']}"
+    if k == "rename":
+        return f"rename d{ev['d']}/{nm[ev['n']]} → d{ev['d2']}/{nm[ev['n2']]}"
+    if k in ("write", "replace"):
+        return f"{k} d{ev['d']}/{nm[ev['n']]} := image {ev['c']}"
+    return f"{k} d{ev['d']}/{nm[ev['n']]}"
+
+
+def gen_figfs_history(rng, pool, labels, j, mode=None):
+    """target = the (j mod n)-th member of the figure-files family; 1–4 prior operations on members that name a file of
+    the same name (mostly), other members, documents of the base pool, failing documents — with FILE-SYSTEM EVENTS in
+    between.  mode 'cwd-only': no file ever changes, the process changes its working directory (and touches files):
+    a history inside the quantifier of C14 as written.  mode 'files-changed': files are rewritten in place / replaced
+    atomically (same byte length, another length), replaced by the same-named file of another directory, renamed away,
+    deleted and written again, touched; the directory may change too.  The target's files exist when it is encoded."""
+    info, docs = pool["figfs"], pool["docs"]
+    fam = info["members"]
+    mode = mode or ("cwd-only" if j % 2 == 0 else "files-changed")
+    order = fam if mode == "files-changed" else [d for d in fam if any("rel" in r for r in _refs_of(pool, d))]
+    target = order[(j // 2) % len(order)]
+    trefs = _refs_of(pool, target)
+    tnames = {r.get("rel", r.get("n")) for r in trefs}
+    sim = FsSim(info)
+    nd = pool.get("n_base", len(docs))
+    failing = [i for i, l in enumerate(labels[:nd]) if "fail" in l or "IndexError" in l]
+    relatives = [d for d in fam if {r.get("rel", r.get("n")) for r in _refs_of(pool, d)} & tnames]
+    ops, kinds, evkinds, live, slot = [], [], [], {}, 0
+
+    def emit(ev):
+        ops.append(["fs", ev])
+        sim.apply(ev)
+        evkinds.append(ev["ev"])
+
+    def chdir():
+        emit(dict(ev="chdir", d=rng.choice([d for d in range(info["ndirs"]) if d != sim.cwd])))
+
+    def event(focus):
+        """one event of the mode, preferably on a file the documents in `focus` name now"""
+        keys = [sim.key(r) for did in focus for r in _refs_of(pool, did)]
+        if mode == "cwd-only":
+            if rng.random() < 0.8 or not keys:
+                chdir()
+            else:
+                d, n = rng.choice(keys)
+                emit(dict(ev="touch", d=d, n=n))
+            return
+        d, n = rng.choice(keys) if keys and rng.random() < 0.85 else (rng.randrange(info["ndirs"]), rng.randrange(len(info["names"])))
+        sp = info["spare"][f"{d},{n}"]
+        kind = rng.choice(["write", "write", "replace", "replace", "swap-in", "rename-away", "delete", "touch", "chdir"])
+        if kind in ("write", "replace"):
+            cands = [c for c in (sp["same"] if rng.random() < 0.5 and sp["same"] else sp["other"]) if c != sim.files.get((d, n))]
+            if cands:
+                emit(dict(ev=kind, d=d, n=n, c=rng.choice(cands)))
+        elif kind == "swap-in":
+            # the same-named file of another directory takes its place
+            d2 = rng.choice([x for x in range(info["ndirs"]) if x != d])
+            if (d2, n) in sim.files:
+                emit(dict(ev="rename", d=d2, n=n, d2=d, n2=n))
+        elif kind == "rename-away":
+            n2 = rng.choice([x for x in range(len(info["names"])) if x != n and info["names"][x].lower().endswith(
+                info["names"][n].lower()[-4:])] or [n])
+            if n2 != n:
+                emit(dict(ev="rename", d=d, n=n, d2=d, n2=n2))
+        elif kind == "delete":
+            emit(dict(ev="delete", d=d, n=n))
+        elif kind == "touch":
+            emit(dict(ev="touch", d=d, n=n))
+        else:
+            chdir()
+
+    nprior = rng.choice([1, 2, 2, 3, 3, 4])
+    for i_op in range(nprior):
+        r = rng.random()
+        if r < 0.1 and failing:
+            what, did = "fail", rng.choice(failing)
+        elif r < 0.72:
+            what, did = rng.choice(["encode", "encode", "encode", "twice", "construct"]), rng.choice(relatives)
+        elif r < 0.9:
+            what, did = rng.choice(["encode", "encode", "twice"]), rng.choice(fam)
+        else:
+            what, did = "encode", rng.randrange(nd)
+        if i_op == 0 and what == "construct":
+            what = "encode"
+        use_live = [s_ for s_, d in live.items() if d == did]
+        # `RTFDocument(rtf_figure=…)` validates the figure component again: it raises FileNotFoundError when a file is
+        # missing at that moment (C19's business) — such a document can only be encoded through a live object
+        readable = did not in fam or all(sim.read(x) is not None for x in _refs_of(pool, did))
+        if not readable and not use_live:
+            event([target, did])
+            continue
+        if use_live and (not readable or (what != "construct" and rng.random() < 0.4)):
+            s_ = rng.choice(use_live)
+            what = "encode" if what == "construct" else what
+        else:
+            if did in fam and rng.random() < 0.3:
+                ops.append(["recreate", docs[did]["figure"]])
+            s_ = slot
+            slot += 1
+            ops.append(["construct", s_, did])
+            live[s_] = did
+        if what in ("encode", "fail"):
+            ops.append(["encode", s_])
+        elif what == "twice":
+            ops.append(["twice", s_])
+        kinds.append(what + ":" + labels[did])
+        if rng.random() < 0.2:
+            ops.append(["drop", s_])
+            live.pop(s_, None)
+        # something happens to the tree / the working directory before the next operation (always before the target)
+        for _ in range(rng.choice([1, 1, 2]) if (i_op == nprior - 1 or rng.random() < 0.45) else 0):
+            event([target] + ([did] if did in fam else []))
+    # the target must be readable when it is encoded
+    for r in trefs:
+        if sim.read(r) is None:
+            d, n = sim.key(r)
+            emit(dict(ev=rng.choice(["write", "replace"]), d=d, n=n, c=rng.choice(info["spare"][f"{d},{n}"]["other"])))
+    reuse = None
+    cand = [s_ for s_, d in live.items() if d == target]
+    if cand and rng.random() < 0.5:
+        reuse = rng.choice(cand)
+    elif rng.random() < 0.3:
+        ops.append(["recreate", docs[target]["figure"]])
+    hist = dict(ops=ops, target=target, reuse=reuse, target_twice=rng.random() < 0.4, figfs_mode=mode)
+    return hist, ("figfs", mode, tuple(kinds), tuple(evkinds), labels[target], reuse is not None)
+
+
 # ------------------------------------------------------------------ measured family (string widths near a wrap edge)
 
 SAME_FILE = {1: [2, 10], 2: [1, 10], 10: [1, 2], 3: [4, 5], 4: [3, 5], 5: [3, 4], 6: [], 7: [], 8: []}
@@ -900,6 +1235,28 @@ def corpus(names):
     return pool, labels, hs
 
 
+def corpus_files():
+    """hand-written figure-files histories (the two everyday shapes: a plot regenerated between two reports; two report
+    directories with their own `fig.png`, the process changes from one into the other)"""
+    import random
+
+    pool = dict(components=[dict(cls="RTFTitle", kw=dict(text="Figure 1"))], frames=[], docs=[])
+    labels = []
+    gen_figfs(random.Random(14), pool, labels)
+    fam = pool["figfs"]["members"]
+    rel, ab = fam[labels.index("figfs-rel")], fam[labels.index("figfs-abs-start-dir")]
+    cwd = pool["figfs"]["cwd"]
+    other = (cwd + 1) % pool["figfs"]["ndirs"]
+    new = pool["figfs"]["spare"][f"{cwd},0"]["other"][0]
+    hs = [dict(ops=[["construct", 0, ab], ["encode", 0], ["fs", dict(ev="write", d=cwd, n=0, c=new)]], target=ab, reuse=None,
+               target_twice=True, figfs_mode="files-changed"),
+          dict(ops=[["construct", 0, rel], ["encode", 0], ["fs", dict(ev="chdir", d=other)]], target=rel, reuse=None,
+               target_twice=False, figfs_mode="cwd-only"),
+          dict(ops=[["construct", 0, rel], ["encode", 0], ["fs", dict(ev="chdir", d=other)]], target=rel, reuse=0,
+               target_twice=False, figfs_mode="cwd-only")]
+    return pool, labels, hs
+
+
 # ------------------------------------------------------------------ model requests
 
 def ctor_of(dd):
@@ -911,6 +1268,10 @@ def ctor_of(dd):
 def model_request(pool, hist, ob, hashseed=0, ref_seeds=()):
     ops = []
     for op in hist["ops"]:
+        if op[0] in ("fs", "recreate"):
+            # not operations of the base world: it has no file system, and a re-created component is equal-valued
+            # (`files_request` sends the events to `Model.World.runF`)
+            continue
         if op[0] == "construct":
             ops.append(dict(op="construct", n=op[1], ctor=ctor_of(pool["docs"][op[2]])))
         elif op[0] == "lookup":
@@ -922,6 +1283,31 @@ def model_request(pool, hist, ob, hashseed=0, ref_seeds=()):
     return dict(op="c14_world", heap=[[i, h] for i, h in enumerate(ob["heap0"])],
                 frames=[[i, f] for i, f in enumerate(ob["frames"])], ops=ops,
                 target=ctor_of(pool["docs"][hist["target"]]), seed=int(hashseed), ref_seeds=[int(x) for x in ref_seeds])
+
+
+def _jref(r):
+    return dict(abs=r["abs"], n=r["n"]) if "abs" in r else dict(rel=r["rel"])
+
+
+def files_request(pool, hist, ob, hashseed=0):
+    """the history WITH its file-system events for `Model.World.runF` (op `c14_files`): one trace entry per operation"""
+    base = model_request(pool, hist, ob, hashseed)
+    it = iter(base["ops"])
+    ops = []
+    for op in hist["ops"]:
+        if op[0] == "fs":
+            ev = dict(op[1])
+            ev["ev"] = "write" if ev["ev"] == "replace" else ev["ev"]
+            ops.append(dict(ev, op="ev"))
+        elif op[0] == "recreate":
+            ops.append(dict(op="measure"))          # a step that leaves the world alone
+        else:
+            ops.append(next(it))
+    info = pool["figfs"]
+    figs = [[i, [_jref(r) for r in c["kw"]["paths"]]] for i, c in enumerate(pool["components"])
+            if c["cls"] == "RTFFigure" and "paths" in c["kw"]]
+    return dict(op="c14_files", heap=base["heap"], frames=base["frames"], ops=ops, target=base["target"], seed=base["seed"],
+                fs=dict(cwd=info["cwd"], files=info["files"]), figs=figs)
 
 
 def obs_out(o):
@@ -1007,7 +1393,75 @@ def order_note(obs_list):
     return ("  [order of the page_by spanning rows / subline values — " + " | ".join(seen) + "]") if seen else ""
 
 
-def judge(res, case, pool, hist, ob, fresh, mdl, orc, others=()):
+def files_note(pool, hist, ob, fresh, fm):
+    """what a figure-files history did to the tree and which images ended up in the outputs"""
+    if not pool.get("figfs") or fm is None:
+        return ""
+    evs = fs_events(hist)
+    t, f = ob["target"].get("out") or {}, fresh.get("out") or {}
+    cls = ("no file-system event" if not evs else
+           "files were rewritten between the operations (a history outside the quantifier of C14 as written; the "
+           "reference is the fresh interpreter in the file system as it is when the target is encoded)" if fm["files_changed"]
+           else "NO FILE CHANGED during the history, only the working directory / time stamps (a history of "
+                "construct / encode operations as C14 quantifies them)")
+    names = pool["figfs"]["names"]
+    paths = ", ".join(("d%d/%s" % (r["abs"], names[r["n"]]) if "abs" in r else names[r["rel"]]) + f" [{r.get('form', 'str')}]"
+                      for r in _refs_of(pool, hist["target"])) if pool["docs"][hist["target"]].get("figure") is not None \
+        and "paths" in pool["components"][pool["docs"][hist["target"]]["figure"]]["kw"] else "-"
+    return (f"  [figure files — target paths: {paths}; events: {'; '.join(_fmt_ev(pool, e) for e in evs) or 'none'}; "
+            f"images embedded after the history: {t.get('pics')}, by the fresh interpreter in the same tree and directory: "
+            f"{f.get('pics')}, the files hold now (model of the tree): {fm['fresh']}; {cls}]")
+
+
+def judge_files(res, pool, hist, ob, fresh, fm):
+    """figure-files histories: the model of the tree (`Model.World.Fs`) against the real one, and what every encode
+    embedded against what the paths designate at that moment (`Model.World.traceF` of the code as it is: no store).
+    → (disagreements, indices of the operations whose encode the model expects to raise FileNotFoundError)"""
+    dis, fnf = [], set()
+    if not fm["pure"]:
+        raise common.MachineryError("files model: target after the history differs from the fresh world (C14files_code_purity)")
+    real, fr = ob.get("fs_final"), fresh.get("fs_final")
+    mfin = dict(cwd=fm["final"]["cwd"], files=sorted(fm["final"]["files"]))
+    if real != mfin or (fr is not None and fr != mfin):
+        raise common.MachineryError(f"file tree after the history: real {real} / fresh run {fr} / model {mfin}")
+    fam = set(pool["figfs"]["members"])
+    slot_doc = {}
+    for i, (op, o, tr) in enumerate(zip(hist["ops"], ob["obs"], fm["trace"])):
+        if op[0] == "construct":
+            slot_doc[op[1]] = op[2]
+            if op[2] in fam and tr and None in tr[0]:
+                # the generator constructs figure documents only while their files exist (`FsSim`)
+                raise common.MachineryError(f"operation {i}: figure document {op[2]} constructed while a file is missing "
+                                            f"(model {tr[0]}, implementation {o})")
+        if op[0] not in ("encode", "twice") or o.get("missing"):
+            continue
+        did = slot_doc.get(op[1])
+        if did is None or (pool["docs"][did]["kind"] == "figure" and did not in fam):
+            continue        # the base pool's figure document keeps its files outside the tree
+        outs = [o["out"]] if op[0] == "encode" else [o["a"], o["b"]]
+        for out, reads in zip(outs, tr):
+            if None in reads:
+                fnf.add(i)
+                if out.get("cls") != "FileNotFoundError":
+                    dis.append(f"operation {i} ({op[0]} of {did}): a file of the document does not exist now (model reads "
+                               f"{reads}) but the implementation returned {out}")
+            elif "ok" in out and out.get("pics") != reads:
+                dis.append(f"operation {i} ({op[0]} of {did}): images embedded {out.get('pics')} vs what the document's "
+                           f"paths designate at that moment (model) {reads}")
+            elif out.get("cls") == "FileNotFoundError":
+                dis.append(f"operation {i} ({op[0]} of {did}): FileNotFoundError ({out.get('msg')}) but every file exists (model "
+                           f"reads {reads})")
+    t = ob["target"]
+    tdoc = pool["docs"][hist["target"]]
+    if "out" in t and "ok" in t["out"] and (tdoc["kind"] != "figure" or hist["target"] in fam):
+        if t["out"].get("pics") != fm["target"]:
+            dis.append(f"target: images embedded {t['out'].get('pics')} vs what its paths designate now (model) {fm['target']}")
+        if "out" in fresh and "ok" in fresh["out"] and fresh["out"].get("pics") != fm["fresh"]:
+            dis.append(f"fresh interpreter: images embedded {fresh['out'].get('pics')} vs model {fm['fresh']}")
+    return dis, fnf
+
+
+def judge(res, case, pool, hist, ob, fresh, mdl, orc, others=(), fm=None):
     """returns nothing; records failures (property false on the implementation) and disagreements"""
     hseed = case.get("hashseed")
     # --- oracle: the property itself, decided by the Lean-defined predicate on the observations
@@ -1018,7 +1472,8 @@ def judge(res, case, pool, hist, ob, fresh, mdl, orc, others=()):
             why.append(f"target after the history (interpreter with PYTHONHASHSEED={hseed}): {t}  vs fresh "
                        f"interpreter (PYTHONHASHSEED=0): {f}" + pages_note(ob["target"], fresh)
                        + order_note([(f"history, seed {hseed}", ob["target"]), ("fresh, seed 0", fresh)])
-                       + typeset_note(pool, hist, case.get("labels") or []))
+                       + typeset_note(pool, hist, case.get("labels") or [])
+                       + files_note(pool, hist, ob, fresh, fm))
         if "interpreter-dependent" in orc["violations"]:
             why.append("fresh interpreters started with different string-hash seeds produce different outputs for the "
                        "same constructor call on equal-valued objects (no history involved): "
@@ -1034,14 +1489,18 @@ def judge(res, case, pool, hist, ob, fresh, mdl, orc, others=()):
     if mdl["violations"]:
         raise common.MachineryError(f"model observation violates its own spec: {mdl['violations']}")
     # --- correspondence with the model
-    dis = []
-    mi = 0
-    first_encode_seen = False
-    for o, mo in zip(ob["obs"], mdl["outs"]):
+    dis, fnf = [], set()
+    if fm is not None:
+        dis, fnf = judge_files(res, pool, hist, ob, fresh, fm)
+    # the base world sees neither file-system events nor re-created (equal-valued) components
+    base = [(i, o) for i, (op, o) in enumerate(zip(hist["ops"], ob["obs"])) if op[0] not in ("fs", "recreate")]
+    for (mi, o), mo in zip(base, mdl["outs"]):
         k = o["kind"]
         if k == "construct":
             if mo.get("constructed") != o["ok"]:
                 dis.append(f"construct: model {mo} vs implementation {o}")
+        elif k in ("encode", "twice") and mi in fnf:
+            pass                    # a file is missing now: the outcome kind was `judge_files`' business
         elif k == "encode" and not o.get("missing"):
             if kind_of_model(mo["encoded"]) != kind_of_impl(o["out"]):
                 dis.append(f"encode outcome: model {kind_of_model(mo['encoded'])} vs implementation {o['out']}")
@@ -1065,7 +1524,6 @@ def judge(res, case, pool, hist, ob, fresh, mdl, orc, others=()):
                 dis.append(f"colour context left behind after an encode ({o['out'] if k == 'encode' else o['a']}): {o['ctx']}")
             if o.get("registry") not in ("unavailable", None) and o["registry"] != mdl["registry"]:
                 dis.append(f"registry after an encode: {o['registry']} vs model {mdl['registry']}")
-        mi += 1
     t = ob["target"]
     if "construct" in t:
         if "err" not in mdl["target_doc"]:
@@ -1187,10 +1645,18 @@ def run_unit(res, rng, names, codes):
 
 # ------------------------------------------------------------------ run
 
+def ref_key(pk, h):
+    """what a fresh reference depends on: the pool, the target, and the file-system events of the history (the
+    reference is computed in the tree and the working directory they lead to)"""
+    evs = fs_events(h)
+    return (pk, h["target"], json.dumps(evs, sort_keys=True) if evs else "")
+
+
 def execute(res, groups, fresh_cache, others_cache=None, ref_seeds=()):
     """groups = [(work, hash seed of the interpreter the histories run in)], work = [(pool_key, pool, labels, hist,
     nt)] → run histories; references: every target in a new interpreter with PYTHONHASHSEED=0 and, per seed of
-    `ref_seeds`, in a forked child of an interpreter started with that seed; model, oracle; judge"""
+    `ref_seeds`, in a forked child of an interpreter started with that seed (after the history's file-system events,
+    if any); model, oracle; judge"""
     others_cache = {} if others_cache is None else others_cache
     work, obs, seed_of = [], [], []
     for wk, hashseed in groups:
@@ -1200,31 +1666,36 @@ def execute(res, groups, fresh_cache, others_cache=None, ref_seeds=()):
         seed_of += [hashseed] * len(wk)
     need, need_others = {}, {}
     for (pk, p, _, h, _), ob in zip(work, obs):
-        key = (pk, h["target"])
+        key = ref_key(pk, h)
         if key not in fresh_cache and key not in need:
-            need[key] = (p, h["target"])
+            need[key] = (p, h["target"], fs_events(h))
         if ref_seeds and key not in others_cache and key not in need_others:
             need_others[key] = (p, h["target"])
     pools = {pk: p for pk, p, _, _, _ in work}
     with ThreadPoolExecutor(common.NCPU + len(ref_seeds)) as ex:
         keys_o = list(need_others)
-        many = [ex.submit(run_fresh_many, {k: v for k, v in pools.items() if any(k == pk for pk, _ in keys_o)},
+        many = [ex.submit(run_fresh_many, {k: v for k, v in pools.items() if any(k == ko[0] for ko in keys_o)},
                           keys_o, sd, max(2, common.NCPU // 2)) for sd in ref_seeds] if keys_o else []
-        futs = {k: ex.submit(run_fresh, p, t, 0, False) for k, (p, t) in need.items()}
+        futs = {k: ex.submit(run_fresh, p, t, 0, False, evs) for k, (p, t, evs) in need.items()}
         for k, f in futs.items():
             fresh_cache[k] = f.result()
         for sd, f in zip(ref_seeds, many):
             for k, o in zip(keys_o, f.result()):
                 others_cache.setdefault(k, []).append((sd, o))
-    reqs = []
+    reqs, where = [], []
     for (pk, p, _, h, _), ob, hashseed in zip(work, obs, seed_of):
-        key = (pk, h["target"])
+        key = ref_key(pk, h)
+        where.append(len(reqs))
         reqs.append(model_request(p, h, ob, hashseed, [0] + [sd for sd, _ in others_cache.get(key, [])]))
         reqs.append(oracle_request(ob, fresh_cache[key], others_cache.get(key, [])))
+        if h.get("figfs_mode") is not None and p.get("figfs"):
+            reqs.append(files_request(p, h, ob, hashseed))
     outs = common.driver_batch(reqs)
     for i, ((pk, p, labels, h, nt), ob, hashseed) in enumerate(zip(work, obs, seed_of)):
-        mdl, orc = outs[2 * i], outs[2 * i + 1]
-        others = others_cache.get((pk, h["target"]), [])
+        mdl, orc = outs[where[i]], outs[where[i] + 1]
+        fm = outs[where[i] + 2] if h.get("figfs_mode") is not None and p.get("figfs") else None
+        key = ref_key(pk, h)
+        others = others_cache.get(key, [])
         case = dict(level="history", hashseed=hashseed, ref_seeds=[sd for sd, _ in others], pool=p, history=h,
                     labels=labels)
         res.case(case, nt)
@@ -1235,15 +1706,37 @@ def execute(res, groups, fresh_cache, others_cache=None, ref_seeds=()):
         for o in ob["obs"]:
             if o["kind"] == "encode" and not o.get("missing"):
                 res.count("prior_encode:" + ("ok" if "ok" in o["out"] else o["out"]["cls"]))
-            elif o["kind"] in ("twice", "construct", "drop", "lookup"):
+            elif o["kind"] in ("twice", "construct", "drop", "lookup", "recreate"):
                 res.count("prior_" + o["kind"])
             elif o["kind"] == "measure":
                 res.count("prior_measure:" + ("value" if "val" in o else o["cls"]))
+            elif o["kind"] == "fs":
+                res.count("figfs_event:" + o["ev"])
         t = ob["target"]
         res.count("target_outcome:" + ("construct-error" if "construct" in t else kind_of_impl(t["out"])))
         if h.get("reuse") is not None:
             res.count("target_reuses_live_document")
-        judge(res, case, p, h, ob, fresh_cache[(pk, h["target"])], mdl, orc, others)
+        if fm is not None:
+            count_files(res, p, h, fm)
+        judge(res, case, p, h, ob, fresh_cache[key], mdl, orc, others, fm)
+
+
+def count_files(res, pool, hist, fm):
+    """evidence labels of a figure-files history: its class (did any file change?) and whether it could tell the code
+    from a store of image bytes keyed by the path as spelled / by the resolved path (computed by the Lean model)"""
+    evs = fs_events(hist)
+    cls = ("no-fs-event" if not evs else "files-rewritten(outside-the-quantifier-as-written)" if fm["files_changed"]
+           else "no-file-changed(cwd/touch-only)")
+    res.count("figfs_history:" + cls)
+    for r in _refs_of(pool, hist["target"]):
+        res.count("figfs_target_path:" + ("rel" if "rel" in r else "abs") + ":" + r.get("form", "str"))
+    if fm["target_spelling_keyed_store"] != fm["target"]:
+        res.count("figfs_history_exposes_store_keyed_by_path-as-spelled:" + cls)
+    if fm["target_resolved_keyed_store"] != fm["target"]:
+        res.count("figfs_history_exposes_store_keyed_by_resolved-path:" + cls)
+    seen = [c for tr in fm["trace"] for reads in tr for c in reads if c is not None]
+    if any(c is not None and c not in seen for c in fm["target"]):
+        res.count("figfs_target_embeds_an_image_no_earlier_encode_read")
 
 
 def run(res: common.Result, build) -> int:
@@ -1256,11 +1749,15 @@ def run(res: common.Result, build) -> int:
     rounds = 6 if quick else 32
     per_round = 25 if quick else 100
     per_measured = 18 if quick else 36
+    per_figfs = 14 if quick else 24
     fresh_cache = {}
     work = []
     cpool, clabels, chists = corpus(names)
     for h in chists:
         work.append(("corpus", cpool, clabels, h, ("corpus", json.dumps(h["ops"]), h["target"])))
+    fpool, flabels, fhists = corpus_files()
+    for h in fhists:
+        work.append(("corpus-files", fpool, flabels, h, ("corpus-files", json.dumps(h["ops"]), h["target"])))
     for r in range(rounds):
         pool, labels = gen_round(sub_rng(res.seed, "c14pool", r), names)
         pool["n_base"] = len(pool["docs"])
@@ -1283,6 +1780,14 @@ def run(res: common.Result, build) -> int:
             h, nt = gen_hash_history(sub_rng(res.seed, "c14hhist", r, k), pool, labels, k)
             res.count("hash_order_history")
             work.append((r, pool, labels, h, nt))
+        # figure-files family (appended last): histories with file-system events between the operations, alternately
+        # without any file change (working directory / time stamps only) and with rewritten / replaced / renamed files
+        finfo = gen_figfs(sub_rng(res.seed, "c14figfs", r), pool, labels)
+        res.count("figfs_family_documents", len(finfo["members"]))
+        for k in range(per_figfs):
+            h, nt = gen_figfs_history(sub_rng(res.seed, "c14fhist", r, k), pool, labels, r * per_figfs + k + 7 * res.seed)
+            res.count("figfs_history_generated:" + h["figfs_mode"])
+            work.append((r, pool, labels, h, nt))
     seeds = [1 + rng.randrange(4_000_000_000)]
     # the histories run in interpreters with two different hash seeds (alternating), every reference is computed
     # under PYTHONHASHSEED=0 and under two more seeds: 4 interpreters per target that must agree
@@ -1301,15 +1806,26 @@ def run(res: common.Result, build) -> int:
         keys = list(fresh_cache)[:: max(1, len(fresh_cache) // 150)]
         pools = {w[0]: w[1] for w in work}
         with ThreadPoolExecutor(common.NCPU) as ex:
-            again = list(ex.map(lambda k: run_fresh(pools[k[0]], k[1], 987654321, False), keys))
+            again = list(ex.map(lambda k: run_fresh(pools[k[0]], k[1], 987654321, False, json.loads(k[2]) if k[2] else []),
+                                keys))
         for k, a in zip(keys, again):
             res.count("baseline_under_second_hashseed")
             if target_obs(a) != target_obs(fresh_cache[k]):
-                case = dict(level="fresh-hashseed", pool=pools[k[0]], target=k[1])
+                case = dict(level="fresh-hashseed", pool=pools[k[0]], target=k[1], events=json.loads(k[2]) if k[2] else [])
                 res.fail(case, f"fresh-interpreter output depends on PYTHONHASHSEED: {target_obs(a)} vs "
                                f"{target_obs(fresh_cache[k])}")
-    # the replay names the failing history with the fewest operations
-    res.failures.sort(key=lambda cw: len((cw[0].get("history") or {}).get("ops", ())))
+    # the replay names the failing history with the fewest operations — one in which no file changed (a history of
+    # the property's own quantifier) before one with rewritten files
+    def _rank(cw):
+        h = cw[0].get("history") or {}
+        return (1 if files_rewritten(h) else 0, len(h.get("ops", ())))
+    res.failures.sort(key=_rank)
+    if any(cw[0].get("history", {}).get("figfs_mode") for cw in res.failures):
+        res.extra["figure_files_failures"] = {
+            "no file changed (working directory / time stamps only)": sum(
+                1 for c, _ in res.failures if (c.get("history") or {}).get("figfs_mode") and not files_rewritten(c["history"])),
+            "files rewritten between the operations": sum(
+                1 for c, _ in res.failures if (c.get("history") or {}).get("figfs_mode") and files_rewritten(c["history"]))}
     res.extra["hashseeds"] = dict(histories=seeds, baseline=0, further_references=ref_seeds)
     res.extra["fresh_subprocesses"] = len(fresh_cache)
     return common.finish(
@@ -1328,7 +1844,13 @@ def run(res: common.Result, build) -> int:
                     "keyed store (cache) in front of a stateless function keeps every answer history-independent iff "
                     "its key determines the value (C14memo_pure_iff); lifted to the world with encodes and direct "
                     "measurements filling the store (C14memo_world_purity); loaded fonts keyed by (file, int(2*size)) "
-                    "or by size alone are witnesses of the other kind.")
+                    "or by size alone are witnesses of the other kind. C14files_*: the world with a file system (working "
+                    "directory, file contents) and events between the operations; the target's outcome and the images it "
+                    "embeds after any history are those of a fresh process in the file system reached (C14files_code_purity, "
+                    "C14files_purity, C14files_reads_current), iff the key of a store of file contents determines the content "
+                    "(C14files_pure_iff); the path as spelled does not, with no file changing (C14files_spelling_cwd_witness), "
+                    "the resolved path does exactly while no file changes (C14files_resolved_pure_readonly, "
+                    "C14files_resolved_rewrite_witness).")
 
 
 def replay(payload) -> int:
@@ -1344,8 +1866,8 @@ def replay(payload) -> int:
         print("model         :", m)
         bad = isinstance(o, tuple) or o["idx"] != m["idx"] or o["util"] != m["util"]
     elif case.get("level") == "fresh-hashseed":
-        a = run_fresh(case["pool"], case["target"], 0)
-        b = run_fresh(case["pool"], case["target"], 987654321)
+        a = run_fresh(case["pool"], case["target"], 0, False, case.get("events"))
+        b = run_fresh(case["pool"], case["target"], 987654321, False, case.get("events"))
         print("hash seed 0        :", target_obs(a))
         print("hash seed 987654321:", target_obs(b))
         bad = target_obs(a) != target_obs(b)
@@ -1353,11 +1875,16 @@ def replay(payload) -> int:
         pool, hist = case["pool"], case["history"]
         hseed = case.get("hashseed", 1)
         ob = run_histories([dict(pool=pool, history=hist)], hseed)[0]
-        fresh = run_fresh(pool, hist["target"], 0, True)
+        evs = fs_events(hist)
+        fresh = run_fresh(pool, hist["target"], 0, True, evs)
         # on replay every further reference is a new interpreter of its own
-        others = [(sd, run_fresh(pool, hist["target"], sd, False)) for sd in case.get("ref_seeds", [])]
-        mdl, orc = common.driver_batch([model_request(pool, hist, ob, hseed, [0] + [sd for sd, _ in others]),
-                                        oracle_request(ob, fresh, others)])
+        others = [(sd, run_fresh(pool, hist["target"], sd, False, evs)) for sd in case.get("ref_seeds", [])]
+        with_files = hist.get("figfs_mode") is not None and pool.get("figfs")
+        outs = common.driver_batch([model_request(pool, hist, ob, hseed, [0] + [sd for sd, _ in others]),
+                                    oracle_request(ob, fresh, others)]
+                                   + ([files_request(pool, hist, ob, hseed)] if with_files else []))
+        mdl, orc = outs[0], outs[1]
+        fm = outs[2] if with_files else None
         print("history            :", hist)
         print("kinds              :", [case["labels"][o[2]] for o in hist["ops"] if o[0] == "construct"],
               "→ target", case["labels"][hist["target"]])
@@ -1368,9 +1895,13 @@ def replay(payload) -> int:
             print("target (fresh)     :", target_obs(o), f"(PYTHONHASHSEED={sd})")
         print("heading order      :", dict(history=ob["target"].get("order"), fresh=fresh.get("order"),
                                            **{f"fresh_{sd}": o.get("order") for sd, o in others}))
+        if fm is not None:
+            print("file-system events :", [_fmt_ev(pool, e) for e in evs])
+            print("images embedded    :", dict(history=(ob["target"].get("out") or {}).get("pics"),
+                                               fresh=(fresh.get("out") or {}).get("pics"), files_hold_now=fm["fresh"]))
         print("violated clauses   :", orc["violations"])
         tmp = common.Result("C14", "quick", 0)
-        judge(tmp, case, pool, hist, ob, fresh, mdl, orc, others)
+        judge(tmp, case, pool, hist, ob, fresh, mdl, orc, others, fm)
         for _, why in tmp.failures:
             print("FAIL:", why)
         for _, why in tmp.disagreements:
